@@ -225,6 +225,8 @@ def _run_history(desc, props=("C03", "C05", "C09")):
         r = rng.random()
         if si == 0 or r < 0.5:
             kind = "run"
+        elif r < 0.57 and desc.get("interrupts", True):
+            kind = "interrupt_run"
         elif r < 0.65:
             kind = "fault_run"
         elif r < 0.8:
@@ -263,6 +265,59 @@ def _run_history(desc, props=("C03", "C05", "C09")):
         perturb = rng.choice(desc.get("perturbs", ["none", "none", "line"])) if W > 1 else "none"
         state_before = S.state_desc()
         exp = S.expect(out_ids, fresh)
+        if kind == "interrupt_run":
+            # "interrupted runs": a real SIGINT reaches the thread that called run while the k-th boundary operation (a call, a store read,
+            # a write before it takes effect, a modified-time query) is in flight. That operation is held until run has raised and a source
+            # has been updated behind its back - or for 60 ms, which is what happens when run properly waits for it.
+            import signal
+            import threading
+            import time as _time
+
+            if threading.current_thread() is not threading.main_thread():
+                continue
+            if signal.getsignal(signal.SIGINT) is not signal.default_int_handler:
+                signal.signal(signal.SIGINT, signal.default_int_handler)
+            nb = len(exp.execs) + len(exp.writes) + len(exp.reads) + len(S.reg)
+            kpos = rng.randint(1, max(1, nb))
+            cnt = [0]
+            fired = [None]
+            released = threading.Event()
+            main_ident = threading.main_thread().ident
+
+            def boundary(bkind, key):
+                with H.lock:
+                    cnt[0] += 1
+                    hit = cnt[0] == kpos and fired[0] is None
+                    if hit:
+                        fired[0] = (bkind, key)
+                if hit:
+                    signal.pthread_kill(main_ident, signal.SIGINT)
+                    released.wait(0.06)
+
+            H.pre = lambda nid, att: boundary("call", nid)
+            H.store_hook = lambda k_, st: boundary(k_, st.name) if k_ in ("rd", "wr_before", "mt") else None
+            exc = None
+            try:
+                try:
+                    res, exc = S.run(out_ids, W=W, sched=sched, fresh_tick=fresh, seed=seed + si)
+                    for _ in range(20):
+                        _time.sleep(0.0005)  # an interrupt that was not handled inside run surfaces here
+                except KeyboardInterrupt as e:
+                    exc = exc or e
+            finally:
+                H.pre = None
+                H.store_hook = None
+            if psrcs and fired[0] is not None:
+                i = rng.choice(psrcs)
+                S.src_version[i] += 1
+                S.stores[i].set_content(irmod.Val(("src", i), S.src_version[i]))
+            released.set()
+            for t_ in getattr(S, "leaked", ()):
+                t_.join(2)
+            stats["interrupted_runs"] += int(isinstance(exc, KeyboardInterrupt))
+            log.append(f"{si}: interrupted run W={W} out={out_ids} SIGINT during {fired[0]} -> {type(exc).__name__}; then a source update")
+            last_ok = False
+            continue
         if kind == "fault_run":
             # dry count of boundary events is not needed: pick k from a plausible range; a k beyond the run's
             # events simply yields an un-faulted (successful) run, which is then checked like one.
